@@ -61,9 +61,69 @@ def run_batch(ctx, scripts, tag, **kw):
                           test="TestVerifTwccExec", trace_module="Trace_Twcc.tla", nontrivial=nontrivial, **kw)
 
 
-def run_chunks(ctx, scripts, tag, size):
+def run_chunks(ctx, scripts, tag, size, growth=False):
     for k in range(0, len(scripts), size):
-        run_batch(ctx, scripts[k:k + size], tag if len(scripts) <= size else "%s-%d" % (tag, k // size), tlc_timeout=3000)
+        t = tag if len(scripts) <= size else "%s-%d" % (tag, k // size)
+        nv = len(ctx.violations)
+        evs = run_batch(ctx, scripts[k:k + size], t, tlc_timeout=3000)
+        if growth and evs is not None and len(ctx.violations) == nv:
+            growth_pass(ctx, t, evs)
+
+
+# ------------------------------------------------------------------------------------- specification growth (NOTE)
+
+def growth(ctx):
+    return ctx.cov.setdefault("growth_notes", {
+        "module": "TwccPacker.tla: exact prediction of chunk list, reference, deltas, symbols and packet split; a divergence "
+                  "that satisfies the relational clauses of C05 is a NOTE, never a violation",
+        "packets_compared": 0, "divergent_builds": 0, "by_clause": {}, "examples": [], "passes": 0, "problems": []})
+
+
+def growth_pass(ctx, tag, evs):
+    """Second TLC pass (Trace_TwccPacker) over a trace file that Trace_Twcc has accepted."""
+    import re
+    g = growth(ctx)
+    path = ctx.path("%s-%s.trace" % (ctx.pid, re.sub(r"[^A-Za-z0-9_.-]", "_", tag)))
+    try:
+        v = vlib.validate(ctx, "Trace_TwccPacker.tla", path, timeout=3000)
+    except vlib.Infra as e:       # the growth module failing to evaluate is not a verdict about C05 either
+        g["problems"].append("%s: %s" % (tag, str(e)[:300]))
+        ctx.log("growth pass %s could not be evaluated" % tag)
+        return
+    g["passes"] += 1
+    m = re.search(r'<<"GROWTHCOUNT", (\d+), (\d+)>>', v.out)
+    if not m:
+        g["problems"].append("%s: no GROWTHCOUNT line" % tag)
+        return
+    g["divergent_builds"] += int(m.group(1))
+    g["packets_compared"] += int(m.group(2))
+    for name, n in re.findall(r'<<"GROWTHCLAUSE", "([A-Za-z]+)", (\d+)>>', v.out):
+        if int(n):
+            g["by_clause"][name] = g["by_clause"].get(name, 0) + int(n)
+    for mm in re.finditer(r'<<\s*"GROWTHNOTE",\s*(\d+),\s*\{([^}]*)\}', v.out):
+        if len(g["examples"]) >= 5:
+            break
+        line = int(mm.group(1))
+        tr, off = vlib.trace_at(evs, line)
+        txt = " ".join(v.out[mm.start():mm.start() + 1500].split())
+        nxt = txt.find('<< "GROWTHNOTE"', 10)
+        g["examples"].append({"batch": tag, "clauses": [c.strip().strip('"') for c in mm.group(2).split(",")],
+                              "event": tr[off] if 0 <= off < len(tr) else None,
+                              "trace_prefix": tr[:off][-6:], "tlc": txt[:nxt] if nxt > 0 else txt[:900]})
+    ctx.log("(growth) %s: %s packets compared with TwccPacker, %s divergent builds (%.1fs)" % (tag, m.group(2), m.group(1), v.wall))
+
+
+def growth_report(ctx):
+    g = ctx.cov.get("growth_notes")
+    if not g:
+        return
+    if g["divergent_builds"]:
+        print("NOTE: property=C05 specification growth: the real packer diverges from TwccPacker.tla in %d build(s) of %d packets "
+              "compared, clauses %s; all of them satisfy the relational clauses of C05 (no violation). First example: %s" % (
+                  g["divergent_builds"], g["packets_compared"], g["by_clause"],
+                  (g["examples"][0]["tlc"][:400] if g["examples"] else "-")), flush=True)
+    for pr in g["problems"]:
+        print("NOTE: property=C05 specification growth pass not evaluated: %s" % pr, flush=True)
 
 
 def gen_scripts(ctx, consts, rbs, simulate=None, rng=None):
@@ -282,6 +342,19 @@ def run(ctx):
         vlib.model_check(ctx, "MC_Twcc.tla", vlib.cfg_variant(ctx, "MC_Twcc_neg.cfg", {"Mut": mut}), expect_violation=NEG,
                          note="negative control: a builder damaged by Dmg(%d) must be rejected by Accept" % mut)
 
+    # (M) growth: the exact chunk packer - every status sequence up to MaxLen decodes back, is well formed, needs at most one
+    # chunk per 7 statuses and at most Slack more than the optimum; bulk operator = repeated single steps
+    if q:
+        vlib.model_check(ctx, "MC_TwccPacker.tla", vlib.cfg_variant(ctx, "MC_TwccPacker.cfg", {"MaxLen": 9}))
+        vlib.model_check(ctx, "MC_TwccPacker.tla", vlib.cfg_variant(ctx, "MC_TwccPacker_small.cfg", {"MaxLen": 8}))
+    else:
+        vlib.model_check(ctx, "MC_TwccPacker.tla", vlib.cfg_variant(ctx, "MC_TwccPacker.cfg", {"MaxLen": 12}), timeout=3000)
+        vlib.model_check(ctx, "MC_TwccPacker.tla", vlib.cfg_variant(ctx, "MC_TwccPacker_small.cfg", {"MaxLen": 12, "Slack": 2}),
+                         timeout=3000)
+        vlib.model_check(ctx, "MC_TwccPacker.tla", vlib.cfg_variant(ctx, "MC_TwccPacker.cfg", {"MaxLen": 9, "Slack": 0}),
+                         expect_violation="Invariant NearOptimal is violated",
+                         note="the greedy packer is not optimal: Slack = 0 must be refuted")
+
     # (G) systematic: sub-alphabets keep the exhaustive depth useful; every behaviour gets one of the time bases
     rbs = [0, RB_WRAP, RB_MID, RB_OVER]
     edge_f, edge_b = "{1, 32766, 32767, 32768}", "{1, 32767, 32768}"
@@ -312,12 +385,12 @@ def run(ctx):
         if q:
             allg += sc
         else:
-            run_chunks(ctx, sc, "G-" + name, 40000)
+            run_chunks(ctx, sc, "G-" + name, 40000, growth=name in ("full-wb", "full-nb", "seq4", "edge"))
     if q:
-        run_batch(ctx, allg, "G")
+        run_chunks(ctx, allg, "G", len(allg), growth=True)
     else:
         sims = gen_scripts(ctx, {"L": 40, "WarmBuild": 1, "Base": 65000}, rbs, simulate=(3000, 60), rng=rng)
-        run_batch(ctx, sims, "G-simulate", tlc_timeout=3000)
+        run_chunks(ctx, sims, "G-simulate", 40000, growth=True)
 
     # (T) seeded random arrival processes on the Recorder
     if q:
@@ -330,10 +403,10 @@ def run(ctx):
             rs.append(random_script(rng, n, style))
     rs += [history_limit_script(rng, 300, 900)] if q else [
         history_limit_script(rng, 300, 900), history_limit_script(rng, 2500, 150), history_limit_script(rng, 6000, 70000)]
-    run_chunks(ctx, rs, "T-random", 100)
+    run_chunks(ctx, rs, "T-random", 100, growth=True)
     if not q:
         # one feedback for a full 2^15 history in which every delta needs two bytes (> 65535 bytes if built as one packet)
-        run_batch(ctx, [backwards_script(32768, rng.choice([0, 65000]))], "T-huge", tlc_timeout=3000)
+        run_chunks(ctx, [backwards_script(32768, rng.choice([0, 65000]))], "T-huge", 1, growth=True)
 
     # (T) through the SenderInterceptor with real clocks and a real ticker
     ic = [icpt_script(rng, rng.choice([40, 80, 150])) for _ in range(12 if q else 150)]
@@ -360,6 +433,7 @@ def run(ctx):
         "the validator accepts either order of that read and the build",
         "Go toolchain go1.24.0 from the module cache",
     ]
+    growth_report(ctx)
     return vlib.finish(ctx, "model_checking", RULE)
 
 
